@@ -34,7 +34,7 @@ func zvC05Vars(ibgp bool, n int) []zvVar {
 }
 
 func zvC05Configs(thorough bool) []*zvCfg {
-	var out []*zvCfg
+	var heavy, on, off []*zvCfg
 	for _, ap := range []bool{false, true} {
 		for _, ibgp := range []bool{true, false} {
 			for _, pol := range []string{"accept", "rejectP1", "lp200", "prepend2", "nexthop"} {
@@ -45,15 +45,30 @@ func zvC05Configs(thorough bool) []*zvCfg {
 				}
 				c.Name = fmt.Sprintf("addpath=%v ibgp=%v policy=%s", ap, ibgp, pol)
 				if thorough {
+					// third prefix (sibling of P2 under a dummy trie node); third attribute set where the state space allows it
 					c.NPfx = 3
-					c.Vars = zvC05Vars(ibgp, 3)
-					c.Name += " (3 prefixes, 3 attribute sets)"
+					if !ap {
+						c.Vars = zvC05Vars(ibgp, 3)
+					}
+					c.Name += fmt.Sprintf(" (3 prefixes, %d attribute sets)", len(c.Vars))
 				}
-				out = append(out, c)
+				if ap {
+					on = append(on, c)
+				} else {
+					off = append(off, c)
+				}
+				if thorough && ap && (pol == "accept" || pol == "lp200") {
+					// three path identifiers per prefix
+					d := *c
+					d.NPfx, d.IDs, d.Vars = 2, []uint32{1, 2, 3}, zvC05Vars(ibgp, 2)
+					d.Name = fmt.Sprintf("addpath=%v ibgp=%v policy=%s (2 prefixes, 2 attribute sets, 3 path IDs)", ap, ibgp, pol)
+					heavy = append(heavy, &d)
+				}
 			}
 		}
 	}
-	return out
+	// expensive explorations first, so that the shards get one each
+	return append(append(heavy, on...), off...)
 }
 
 var zvC05Required = []string{
